@@ -79,6 +79,7 @@ func runDPT(e *Env) {
 	s := e.S
 	ntasks := 1 + e.Choose("cfg.tasks", 16)
 	nops := 5 + e.Choose("cfg.ops", 40)
+	favourite, favouriteN := "", 0 // (set below, once the names are known)
 	e.Cfg("tasks=%d ops=%d", ntasks, nops)
 	s.SetConfig(func(sc *simrt.Config) {
 		sc.StickyPermille = []int{0, 300, 700}[e.Choose("cfg.sticky", 3)]
@@ -94,6 +95,9 @@ func runDPT(e *Env) {
 	}
 	names := dpt.ListSupportedTypes()
 	sort.Strings(names)
+	if len(names) > 0 && e.Choose("cfg.favourite", 6) == 0 {
+		favourite, favouriteN = names[e.Choose("cfg.favname", len(names))], 257+e.Choose("cfg.favn", 200)
+	}
 	// static clauses (once per run): names well formed, unique, producible, correctly typed; every
 	// exported type reachable
 	seen := map[string]bool{}
@@ -157,34 +161,62 @@ func runDPT(e *Env) {
 					}
 				}
 			}
+			produce := func(n string) {
+				d, ok := dpt.Produce(n)
+				if !ok || d == nil {
+					e.Violate("C19", "listed-not-producible", "caller %d: Produce(%q) reports unknown", k, n)
+					return
+				}
+				zero := reflect.New(reflect.TypeOf(d).Elem()).Interface()
+				if !reflect.DeepEqual(d, zero) {
+					e.Violate("C19", "fresh-instance-not-zero", "caller %d: Produce(%q) returned %s, not the type's zero value", k, n, dump(d))
+				}
+				p := reflect.ValueOf(d).Pointer()
+				if reflect.TypeOf(d).Elem().Size() > 0 {
+					for _, q := range allPtrs {
+						if q == p {
+							e.Violate("C19", "instance-shared", "caller %d: Produce(%q) returned a pointer that an earlier call already returned", k, n)
+						}
+					}
+				}
+				allPtrs = append(allPtrs, p)
+				keep = append(keep, d)
+				in := &dptInst{name: n, d: d}
+				in.want = d.Pack()
+				in.str = d.String()
+				mine = append(mine, in)
+			}
+			if k == 0 && favourite != "" {
+				// several hundred instances of one name, all kept, the first of them written to: the
+				// 257th (and every other) must be as fresh as the first was
+				for i := 0; i < favouriteN; i++ {
+					produce(favourite)
+					if i == 0 && len(mine) == 1 {
+						p := mine[0].d.Pack()
+						for j := range p {
+							p[j] = byte(0x11 * (j + 1))
+						}
+						if len(p) == 1 {
+							p[0] &= 0x3f
+						} else if len(p) > 1 {
+							p[0] = 0
+						}
+						if mine[0].d.Unpack(p) == nil {
+							mine[0].want = mine[0].d.Pack()
+							mine[0].str = mine[0].d.String()
+						}
+					}
+					if i%64 == 0 {
+						simrt.Yield("dpt-op")
+					}
+				}
+				e.Probe("one-name-300-instances")
+			}
 			for i := 0; i < nops; i++ {
 				simrt.Yield("dpt-op")
 				switch op := e.Choose("wl.op", 10); {
 				case op < 4: // produce a listed name
-					n := names[e.Choose("wl.name", len(names))]
-					d, ok := dpt.Produce(n)
-					if !ok || d == nil {
-						e.Violate("C19", "listed-not-producible", "caller %d: Produce(%q) reports unknown", k, n)
-						continue
-					}
-					zero := reflect.New(reflect.TypeOf(d).Elem()).Interface()
-					if !reflect.DeepEqual(d, zero) {
-						e.Violate("C19", "fresh-instance-not-zero", "caller %d: Produce(%q) returned %s, not the type's zero value", k, n, dump(d))
-					}
-					p := reflect.ValueOf(d).Pointer()
-					if reflect.TypeOf(d).Elem().Size() > 0 {
-						for _, q := range allPtrs {
-							if q == p {
-								e.Violate("C19", "instance-shared", "caller %d: Produce(%q) returned a pointer that an earlier call already returned", k, n)
-							}
-						}
-					}
-					allPtrs = append(allPtrs, p)
-					keep = append(keep, d)
-					in := &dptInst{name: n, d: d}
-					in.want = d.Pack()
-					in.str = d.String()
-					mine = append(mine, in)
+					produce(names[e.Choose("wl.name", len(names))])
 				case op < 7: // decode into one of my instances
 					if len(mine) == 0 {
 						continue
